@@ -35,7 +35,7 @@ class C15(fw.Prop):
             "none / all / first row / alternating / random 30 %, capture periods 0,1,15,60,1440, naive and aware timestamps; rows of wrong "
             "width at every position; a non-timestamp value in a clock column; the same buffers through parse_bytes (A-XDR array of "
             "structures); object lists with every access-mode byte 0..255, 0..20 attributes/methods, selector lists present/absent/empty, "
-            "duplicate attribute ids, unknown interface classes, logical names of wrong length; row counts written in the long form (0x81 n, 0x82 00 n); non-trivial = distinct protocol line")
+            "duplicate attribute ids, unknown interface classes, logical names of wrong length; row counts written in the long form (0x81 n, 0x82 00 n); boolean cells whose TRUE is FF / 80 / 02; non-trivial = distinct protocol line")
     trusted_base = ["extract.py (parse_access_right graph, enum members)", "C14 (decoding of the transmitted bytes), C16 (meaning of timestamps)"]
     assumptions = ["with more than one clock column the code keeps a single running timestamp (the most recent transmitted or filled one); "
                    "with one clock column this is the previous row's timestamp, as the property says",
@@ -198,12 +198,31 @@ class C15(fw.Prop):
             return "ok " + ";".join(txt)
         return fw.Case(line, impl, "prop", d, tags=("objects",))
 
+    def bool_case(self, d):
+        """boolean cells whose TRUE is written as any non-zero octet (FF, 80, 02, 01): the cell holds the transmitted value."""
+        octets = d["octets"]
+
+        def impl():
+            from dlms_cosem import cosem, enumerations as en
+            from dlms_cosem.parsers import ProfileGenericBufferParser
+            caps = [cosem.CosemAttribute(en.CosemInterface.REGISTER, cosem.Obis(1, 0, j, 8, 0, 255), 2) for j in range(len(octets[0]))]
+            data = bytes([1, len(octets)]) + b"".join(bytes([2, len(r)]) + b"".join(bytes([3, o]) for o in r) for r in octets)
+            out = ProfileGenericBufferParser(capture_objects=caps, capture_period=60).parse_bytes(data)
+            got = [[c.value for c in r] for r in out]
+            want = [[o != 0 for o in r] for r in octets]
+            return "ok bool" + ("" if got == want else f" cells-hold:{got}")
+        return fw.Case("echo bool", impl, "prop", d, tags=("boolean-octets",))
+
     def make_case(self, d):
+        if d.get("op") == "bool":
+            return self.bool_case(d)
         if d["op"] == "entries":
             return self.entries_case(d, via_bytes=d.get("via_bytes", False))
         return self.objects_case(d)
 
     def cases(self, rng, tier, deep):
+        yield self.make_case({"op": "bool", "octets": [[0xFF, 0x00], [0x80, 0x01], [0x02, 0x7F]]})
+        yield self.make_case({"op": "bool", "octets": [[rng.choice([0, 1, 0xFF, rng.getrandbits(8)]) for _ in range(3)] for _ in range(5)]})
         nid = [100]
 
         def fresh():
